@@ -793,6 +793,15 @@ def directed_sequences():
         out.append(('plain', cfg, [f(0, 50, 5, umi=(3, 3)), f(0, 51, 5, umi=(2, 2)), f(0, 100, 10), f(0, 105, 15), f(0, 105, 5), f(0, 105, 5)]))
         out.append(('plain', cfg, [f(0, 50, 5, umi=(3, 3)), f(0, 100, 10), f(0, 104, 12, umi=(2, 2)), f(0, 105, 15), f(0, 105, 5),
                                    f(0, 104, 6, umi=(2, 2))]))
+        # paired-end input is released when the second mate is read, so starts are not monotonic: molecule opened by A, joined
+        # through an end match by B that starts further upstream, then C that matches only via B's start (and the mirror image
+        # on the reverse strand / with an end contributed by the second member)
+        pc = dict(cfg, readlen=5)
+        out.append(('plain', pc, [f(0, 115, 20, rlen=5), f(0, 110, 25, rlen=5), f(0, 110, 26, rlen=5)]))
+        out.append(('plain', pc, [f(0, 115, 20, rlen=5), f(0, 112, 23, cell=2, rlen=5), f(0, 110, 25, rlen=5), f(0, 110, 25, umi=(2, 2), rlen=5),
+                                  f(0, 110, 26, rlen=5), f(0, 105, 33, rlen=5), f(0, 105, 40, rlen=5)]))
+        out.append(('plain', pc, [f(1, 135, 20, rlen=5), f(1, 135, 25, rlen=5), f(1, 136, 26, rlen=5)]))
+        out.append(('plain', pc, [f(0, 115, 20, rlen=5), f(0, 115, 22, rlen=5), f(0, 111, 26, rlen=5)]))
         # finding D61: the candidate matches an INTERIOR member only (end 110 < envelope end 115, start 102 > envelope start 100):
         # pooling 0 (member comparison) groups it, pooling 1 (envelope comparison) does not
         out.append(('plain', cfg, [f(0, 100, 10), f(0, 100, 15), f(0, 102, 8)]))
@@ -865,6 +874,26 @@ def mode_c07(emit, tier, rng, scenario_file):
         kind, cfg, frs = gen_sequence(rng, tier)
         tid += 1
         emit(run_schedules(kind, dict(cfg, reuse=(k % 4 == 0)), frs, rng, tid))
+    # paired plain fragments sharing an END with starts further and further upstream, each followed by a fragment that shares only
+    # the newest START (released in order of the second mate: starts are not monotonic), plus decoys of another cell / UMI
+    for k in range(20 if tier == 'quick' else 200):
+        rl = rng.choice([4, 5, 6])
+        end = 160 + rng.randint(0, 20)
+        starts = sorted(rng.sample(range(end - 40, end - 8), rng.randint(2, 4)), reverse=True)
+        frs, umi = [], [0, 1]
+        for i, st in enumerate(starts):
+            frs.append({'cell': 1, 'contig': 1, 'strand': 0, 'site': st, 'flen': end - st, 'rlen': rl, 'clip': 0, 'umi': umi, 'valid': True,
+                        'how': '', 'dup': False})
+            if rng.random() < 0.4:
+                frs.append(dict(frs[-1], cell=2) if rng.random() < 0.5 else dict(frs[-1], umi=[3, 3]))
+        ext = end
+        for st in starts[1:][::-1][:rng.randint(1, 2)] + [starts[-1]]:
+            ext += rng.randint(1, 3)
+            frs.append({'cell': 1, 'contig': 1, 'strand': 0, 'site': st, 'flen': ext - st, 'rlen': rl, 'clip': 0, 'umi': umi, 'valid': True,
+                        'how': '', 'dup': False})
+        tid += 1
+        emit(run_schedules('plain', {'hd': 0, 'radius': 0, 'cache': rng.choice([100, 400]), 'readlen': rl, 'keep_order': True,
+                                     'shape': 'tuple'}, frs, rng, tid))
     # large caches (above the default cache_size) and long fragments
     for k in range(12 if tier == 'quick' else 80):
         kind, cfg, frs = gen_sequence(rng, tier)
